@@ -35,12 +35,18 @@ def run(chk, tier):
     chk.rule("R-UAF", "no use of a pointer after it was released: may-dataflow on released lvalues (free, hwloc_bitmap_free, hwloc_free_unlinked_object, closedir, ...), killed by re-assignment, with a correlated-condition path search and whole-program constant fields to discard infeasible paths")
     nua = uaf.run(chk, P, units=None)
     chk.floor("R-UAF", "release sites examined", nua, 300)
+    chk.rule("R-ARRIDX", "indexes into array fields that carry a count field (infos.array/count, memattrs/nr_memattrs, cpukinds/nr_cpukinds, children/arity, targets/nr_targets, initiators/nr_initiators, "
+             "page_types/page_types_len, ...) stay below the count on every path (zone abstract interpretation); functions whose accesses need facts outside the domain are frozen out of scope with the reason")
+    import zone
+    nai, nao = zone.run_generic(chk, P, frozen=zone.FROZEN_GENERIC)
+    chk.floor("R-ARRIDX", "array accesses proved below their count", nai, 60)
     chk.rule("R-LINKFREE", "an object handed to an insertion function (which links, merges-and-frees or frees it) is never released afterwards by its creator: no feasible path from an insertion of x to hwloc_free_unlinked_object(x) (may-dataflow + correlated-condition path search)")
     nlf = linkfree.run(chk, P)
     chk.floor("R-LINKFREE", "release sites", nlf, 14)
     chk.rule("R-FLAGS", "topology flag words of hwloc_topology_set_flags")
     flags.run(chk, P, "C01", effects=E)
-    chk.decided += ['no pointer is used (or released again) after its release in any library function',
+    chk.decided += ["indexes into counted array fields stay below the count in every function that the bound analysis covers (19 functions frozen out of scope)",
+                    'no pointer is used (or released again) after its release in any library function',
                     'type-specific attributes are accessed only under the matching object type in every self-discriminating function of the library',
                     "the load pipeline establishes sets, levels, total memory, symmetric-subtree and group depths in dependency order on every success path",
                     "no object of a filtered-out type is present (creation sites) and the filter table itself is as specified", "special-level depth lookups agree with the type constants",
